@@ -1340,7 +1340,11 @@ def m_as_bytes(ex, callee, args):
     s = as_str(args[0])
     bs, ln, cap = S.parts(s)
     if not isinstance(ln, int):
-        raise Unsupported('as_bytes() of a string of symbolic length')
+        # one path per length (at most cap + 1 of them): the slice then has a concrete length, so indexing it has
+        # Rust's bounds check
+        for L in range(cap + 1):
+            if L == cap or ex.branch(ln == z3.BitVecVal(L, 64)):
+                return Ref(Cont([Arr([BV(b, 'u8') for b in bs[:L]])]), 0)
     return Ref(Cont([Arr([BV(b, 'u8') for b in bs[:ln]])]), 0)
 
 
